@@ -135,6 +135,7 @@ void cb_evt(m_mod_t *self, const m_queue_t *const evts) {
             break;
         }
         case M_SRC_TYPE_TASK: obs(c, "evt %s task tid=%u ret=%d", m->name.c_str(), e->task_evt->tid, e->task_evt->retval); c.tasks_pending--; break;
+        case M_SRC_TYPE_PATH: obs(c, "evt %s path=%s events=%u", m->name.c_str(), e->path_evt->path ? e->path_evt->path : "-", e->path_evt->events); break;
         default: obs(c, "evt %s type=%d", m->name.c_str(), (int)e->type); break;
         }
     }
@@ -197,6 +198,18 @@ void exec_own(CtxW &c, const Op &op) {
         c.payloads.push_back(op.arg(2));
         int rc = m_mod_ps_publish(m->h, TOPICS[op.arg(1) % NTOP], &c.payloads.back(), (m_ps_flags)0);
         obs(c, "pub %s %s %ld rc=%d", m->name.c_str(), TOPICS[op.arg(1) % NTOP], op.arg(2), rc);
+    } else if (n == "path") {
+        // a path source on a path of this context's own, touched by the environment a little later (twice)
+        static const char *PATHS[3][2] = {{"/c0/a", "/c0/b"}, {"/c1/a", "/c1/b"}, {"/c2/a", "/c2/b"}};
+        const char *path = PATHS[c.k % 3][op.arg(1) % 2];
+        m_src_path_t pt; pt.path = path; pt.events = 0x2 | 0x100;
+        int rc = m_mod_src_register_path(m->h, &pt, (m_src_flags)0, nullptr);
+        obs(c, "path %s %s rc=%d", m->name.c_str(), path, rc);
+        if (rc == 0) {
+            uint64_t dt = (uint64_t)std::max(1L, op.arg(2)) * 1000000ULL;
+            sim::at_time(R->now + dt, [path]() { R->k.env_touch(path, 0x2, false); });
+            sim::at_time(R->now + 2 * dt, [path]() { R->k.env_touch(path, 0x100, true); });
+        }
     } else if (n == "task") {
         if (!G->race_mode) return;   // a task brings threads whose schedule is not a function of this context alone
         m_src_task_t tk; tk.tid = (int)(op.arg(1) % 5); tk.fn = task_body;
@@ -521,7 +534,10 @@ Program gen_ctxs(const std::string &campaign, uint64_t seed, bool thorough) {
             case 2: case 3: p.add(who, "tmr", {(long)r.below(4), (long)r.range(1, 12), r.chance(0.3) ? 1L : 0L}); break;
             case 4: p.add(who, "tell", {(long)r.below(4), (long)r.below(4), (long)r.below(1000)}); break;
             case 5: p.add(who, "pub", {(long)r.below(4), (long)r.below(4), (long)r.below(1000)}); break;
-            case 6: p.add(who, "task", {(long)r.below(4), (long)r.below(5), (long)r.range(0, 4000000)}); break;
+            case 6:
+                if (r.chance(0.5)) p.add(who, "task", {(long)r.below(4), (long)r.below(5), (long)r.range(0, 4000000)});
+                else p.add(who, "path", {(long)r.below(4), (long)r.below(2), (long)r.range(1, 6)});
+                break;
             case 7:
 #ifdef SIM_BUILD_RACE
                 p.add(who, "start", {(long)r.below(4)});   // (no pause next to task sources: avoid filter of the known task-thread finding)
